@@ -407,8 +407,15 @@ func normalisedSites(repo string, rels []string) (writes, muts []normSite) {
 					if se, ok := s.Fun.(*ast.SelectorExpr); ok {
 						full := exprStr(se)
 						switch {
-						case strings.HasPrefix(full, "sort.") || strings.HasPrefix(full, "rand."):
+						case strings.HasPrefix(full, "rand."):
 							add(&muts, full)
+						case sortMutators[full]:
+							// an in-place sort: whose slice it sorts is what matters, not where the call stands
+							arg := "?"
+							if len(s.Args) > 0 {
+								arg = sc.classOfExpr(s.Args[0], 0)
+							}
+							add(&muts, full+"("+arg+")")
 						case mutNames[se.Sel.Name]:
 							add(&muts, sc.classOfExpr(se.X, 0)+"."+se.Sel.Name)
 						}
@@ -420,6 +427,10 @@ func normalisedSites(repo string, rels []string) (writes, muts []normSite) {
 	}
 	return
 }
+
+// the functions of package sort that reorder their argument in place (Search*, IsSorted … do not)
+var sortMutators = map[string]bool{"sort.Slice": true, "sort.SliceStable": true, "sort.Sort": true, "sort.Stable": true,
+	"sort.Strings": true, "sort.Ints": true, "sort.Float64s": true}
 
 // lockSummary: for every function of jsonata.go that mentions the package-level registry,
 // "<fn>|<R or W or ->|locked-before-first-use=<bool>|unlocks=<bool>|writes=<bool>"
